@@ -229,6 +229,21 @@ pub fn run(case: &Case, _known: &BTreeSet<String>) -> Outcome {
                 break 'outer;
             }
         }
+        // V3: grow a stream past the 109 header DIFAT slots (first DIFAT sector gets created);
+        // on the undamaged base and on a few damaged images per case
+        if case.version == 3 && img.len() < (1 << 20) && (accepted == 1 || rng.chance(1, 400)) {
+            let grow = vec![Op::HCreate { h: 0, path: "/grow109".into() }, Op::HSetLen { h: 0, n: 7_200_000 }, Op::HFlush { h: 0 }, Op::HSetLen { h: 0, n: 100 }, Op::HFlush { h: 0 }];
+            marker.ops = grow.clone();
+            crate::subcase::set(&marker, img);
+            let (v, k) = run_ops_on(img, &grow, bufsize);
+            o.stats.sub_runs += 1;
+            o.stats.seam_events += k;
+            o.stats.probe("grow_past_109_fat_sectors");
+            if let Some(v) = v {
+                report(&mut o, v, desc, img, &grow);
+                break 'outer;
+            }
+        }
         // a drawn short history combining several of them
         if lists.len() > 3 {
             let mut hist = vec![];
